@@ -97,6 +97,71 @@ func runC05(c *Ctx) {
 	}
 	c.Floor("C05.S2-same-payload-function", 5)
 
+	// ---- S2b who signs which entry: the main provider's own entry is sealed with the advertisement's signing key
+	// (VerifySignature expects exactly that), every other entry with the key fetched for its ID
+	nSeal := 0
+	for _, f := range c.Funcs(schemaPkg) {
+		for _, cs := range c.Calls(f.SSA, Call("record.Seal")) {
+			if len(cs.X.Args) != 2 {
+				continue
+			}
+			isEP := false
+			for _, r := range c.Actuals(cs.X.Args[0]) {
+				if strings.Contains(r.Name+" "+typeOfX(r), "epSignatureRecord") {
+					isEP = true
+				}
+			}
+			if strings.Contains(cs.X.Args[0].Name+" "+typeOfX(cs.X.Args[0]), "epSignatureRecord") {
+				isEP = true
+			}
+			if !isEP {
+				continue
+			}
+			nSeal++
+			isMain := Bin("==", Field("ID", Any()), Field("Provider", Any()))
+			okKeys, nAd, nFetched := true, 0, 0
+			for _, l := range c.LeavesF(cs.X.Args[1], cs.In) {
+				facts := append(append([]Fact{}, l.Facts...), c.FactsAt(cs.In.Block())...)
+				has := func(val bool) bool {
+					for _, fct := range facts {
+						if _, m := Match(isMain, fct.Cond); m && fct.Val == val {
+							return true
+						}
+					}
+					return false
+				}
+				v := strip(l.Val)
+				switch {
+				case v.Op == "param":
+					nAd++
+					okKeys = okKeys && has(true)
+				case v.Op == "extract" && v.Name == "0" && strip(v.Args[0]).Op == "dyncall":
+					nFetched++
+					okKeys = okKeys && has(false)
+				default:
+					okKeys = false
+				}
+			}
+			c.Check(okKeys && nAd == 1 && nFetched == 1, "C05.S2-entry-signing-key", f.Name+" › key sealing an extended-provider entry", cs.In.Pos(),
+				"the advertisement's key exactly for the main provider's entry, the fetched key exactly for the others", "an extended-provider entry can be sealed with a key other than (the advertisement's signing key for the main provider's entry, the key fetched for the entry's ID otherwise): an advertisement signed by the library then fails its own verification")
+		}
+	}
+	c.Floor("C05.S2-entry-signing-key", 1)
+
+	// ---- S5 what verifies is what was signed: decoding an advertisement does not rewrite it (address, metadata and
+	// the other signed fields of the advertisement and of its extended-provider entries come out as they went in)
+	if uw := c.Func(schemaPkg, "UnwrapAdvertisement"); uw != nil {
+		if r := unwrapResult(c, uw.SSA); r != nil {
+			pos := storesRootedAt(c, uw.SSA, r)
+			c.Check(!pos.IsValid(), "C05.S5-decode-preserves-signed-fields", uw.Name, uw.SSA.Pos(), "the decoded advertisement is returned without any of its fields (or its entries' fields) being stored to", "decoding stores into the advertisement it returns (at "+c.pos(pos)+"): signed fields differ from what was encoded, so a signed advertisement stops verifying after a round trip (or a tampered one starts to)")
+		} else {
+			c.Unk("C05.S5-decode-preserves-signed-fields", uw.Name, uw.SSA.Pos(), "no success return found")
+		}
+	} else {
+		c.Unk("C05.S5-decode-preserves-signed-fields", "ingest/schema.UnwrapAdvertisement", token.NoPos, "not found")
+	}
+	c.Floor("C05.S5-decode-preserves-signed-fields", 1)
+
 	// ---- S3 verification gates --------------------------------------------------------------------
 	c05Verify(c, verify, adPay, epPay)
 
